@@ -243,6 +243,7 @@ def run_case(case, klass=None, sample=None):
         realized = []
         queue = list(case['events'])
         resume_values = list(case.get('auto_resumes', []))
+        issued = [0]
         while queue:
             ev = queue.pop(0)
             k = ev[0]
@@ -255,7 +256,8 @@ def run_case(case, klass=None, sample=None):
                     if sc.ready():
                         queue.insert(0, ['drain', 30])
                         break
-                    if proc.state.value == 'waiting' and resume_values:
+                    if proc.state.value == 'waiting' and resume_values and wait_pending(trace, issued):
+                        issued[0] += 1
                         queue.insert(0, ['ctl', resume_values.pop(0)])
                         break
                 else:
@@ -264,12 +266,20 @@ def run_case(case, klass=None, sample=None):
                     queue.insert(1, ['auto', ev[1] - 1])
                 continue
             if k == 'resume*':
-                if not sc.ready() and not proc.paused and proc.state.value == 'waiting' and resume_values:
+                if not sc.ready() and not proc.paused and proc.state.value == 'waiting' and resume_values and wait_pending(trace, issued):
+                    issued[0] += 1
+                    queue.insert(0, ['ctl', resume_values.pop(0)])
+                continue
+            if k == 'resume!':
+                # an explicit resume request with the value the driver would deliver, whatever else is pending
+                if proc.state.value == 'waiting' and resume_values and wait_pending(trace, issued):
+                    issued[0] += 1
                     queue.insert(0, ['ctl', resume_values.pop(0)])
                 continue
             if k == 'tick*':
                 # a tick of the driven run: a quiescent, playing, waiting process is first resumed with the next value
-                if not sc.ready() and not proc.paused and proc.state.value == 'waiting' and resume_values:
+                if not sc.ready() and not proc.paused and proc.state.value == 'waiting' and resume_values and wait_pending(trace, issued):
+                    issued[0] += 1
                     queue.insert(0, ['tick'])
                     queue.insert(0, ['ctl', resume_values.pop(0)])
                     continue
@@ -307,6 +317,11 @@ def run_case(case, klass=None, sample=None):
     finally:
         pf.CancellableAction.__init__ = orig_init
         sc.close()
+
+
+def wait_pending(trace, issued):
+    """the driver resumes each wait once: has the current wait (the n-th entry into WAITING) not been resumed by it yet?"""
+    return sum(1 for e in trace if e[0] == 'entered' and e[2] == 'waiting') > issued[0]
 
 
 def observe(proc, t0, sc, actions, tag, pos):
